@@ -16,7 +16,7 @@ use vrp_core::construction::features::*;
 use vrp_core::construction::heuristics::*;
 use vrp_core::models::common::*;
 use vrp_core::models::problem::*;
-use vrp_core::models::solution::Activity;
+use vrp_core::models::solution::{Activity, Route};
 use vrp_core::models::*;
 use vrp_core::prelude::{GenericResult, SimpleTransportCost};
 use vrp_core::rosomaxa::evolution::TelemetryMode;
@@ -113,6 +113,7 @@ struct Built {
     quota: Arc<StepQuota>,
     vidx: HashMap<String, i64>,
     names: Vec<&'static str>, // objective layer names, in goal order
+    shared: Option<Feature>,  // C05 stream `shared`: the shared-resource reload feature (its constraint is the read-out of the cached availability)
 }
 
 fn jid_of(s: &str) -> i64 {
@@ -140,6 +141,136 @@ fn set_tags(dimens: &mut Dimensions, v: &Value) {
     if let Some(g) = v["group"].as_str() {
         dimens.set_job_group(g.to_string());
     }
+}
+
+// ------------------------------------------------------------------ shared reload resources (C05 stream `shared`)
+/// dimension keys of the reload marker jobs (what vrp-pragmatic stores as job type "reload" + vehicle id) and of the
+/// read-out probe (a single that is never part of the problem)
+struct ReloadOwnerKey;
+struct ProbeKey;
+
+fn is_reload_single(single: &Single) -> bool {
+    single.dimens.get_value::<ReloadOwnerKey, String>().is_some()
+}
+
+/// `ReloadFeatureFactory::build_shared` configured as vrp-pragmatic's goal_reader does (threshold 0.9, a reload belongs to
+/// the vehicle it is defined on, capacity/id of the resource looked up by the reload job, resource demand = static delivery,
+/// partial solution = not every job of the problem has a home).  The only addition: a single carrying `ProbeKey` (used by
+/// `shared_readout` only, never a job of the problem) has that number as its resource demand and no capacity demand.
+fn shared_reload_feature(case: &Value, total_jobs: usize) -> GenericResult<Feature> {
+    let caps = i64s_of(&case["shared"]["resources"]);
+    let resources: HashMap<String, (SingleDimLoad, usize)> = case["shared"]["reloads"]
+        .as_array()
+        .unwrap()
+        .iter()
+        .filter(|r| !r["resource"].is_null())
+        .map(|r| {
+            let rid = usize_of(&r["resource"]);
+            (format!("j{}", i64_of(&r["id"])), (SingleDimLoad::new(caps[rid] as i32), rid))
+        })
+        .collect();
+    ReloadFeatureFactory::<SingleDimLoad>::new("capacity")
+        .set_capacity_code(ViolationCode(2))
+        .set_load_schedule_threshold(|capacity: &SingleDimLoad| *capacity * 0.9)
+        .set_is_reload_single(is_reload_single)
+        .set_belongs_to_route(|route: &Route, job: &Job| {
+            job.as_single().is_some_and(|single| {
+                single.dimens.get_value::<ReloadOwnerKey, String>().is_some_and(|v| Some(v) == route.actor.vehicle.dimens.get_vehicle_id())
+            })
+        })
+        .set_resource_code(ViolationCode(18))
+        .set_shared_demand_capacity(|single| {
+            single
+                .dimens
+                .get_value::<ProbeKey, i32>()
+                .map(|d| SingleDimLoad::new(*d))
+                .or_else(|| single.dimens.get_job_demand().map(|demand: &Demand<SingleDimLoad>| demand.delivery.0))
+        })
+        .set_shared_resource_capacity(move |activity| {
+            activity
+                .job
+                .as_ref()
+                .filter(|single| is_reload_single(single.as_ref()))
+                .and_then(|single| single.dimens.get_job_id().and_then(|id| resources.get(id)).cloned())
+        })
+        .set_is_partial_solution(move |solution_ctx| solution_ctx.get_jobs_amount() != total_jobs)
+        .build_shared()
+}
+
+/// The cached "shared resource still available" value of every reload interval of a tour.  The state key is private to
+/// reloads.rs and the digest hook renders its value as "opaque", so it is read through the feature's own public
+/// constraint: a probe with resource demand d placed at the first leg of the interval is accepted iff the cached value is
+/// absent or >= d; the largest accepted d is the cached value (null = no value cached for that interval).
+fn shared_readout(b: &Built, sctx: &SolutionContext, rc: &RouteContext) -> Value {
+    let Some(feature) = b.shared.as_ref() else { return Value::Null };
+    let constraint = feature.constraint.as_ref().expect("shared reload constraint");
+    let tour = &rc.route().tour;
+    let accepts = |s: usize, d: i32| -> bool {
+        let mut dimens = Dimensions::default();
+        dimens.set_job_id("probe".to_string());
+        dimens.set_value::<ProbeKey, i32>(d);
+        let single = Arc::new(Single { places: vec![], dimens });
+        let target = Activity {
+            place: vrp_core::models::solution::Place { idx: 0, location: 0, duration: 0., time: TimeWindow::max() },
+            schedule: Schedule::new(0., 0.),
+            job: Some(single),
+            commute: None,
+        };
+        let actx = ActivityContext { index: s, prev: tour.get(s).unwrap(), target: &target, next: tour.get(s + 1) };
+        constraint.evaluate(&MoveContext::activity(sctx, rc, &actx)).is_none()
+    };
+    const BIG: i32 = 1 << 20;
+    let out: Vec<Value> = rc
+        .state()
+        .get_reload_intervals()
+        .cloned()
+        .unwrap_or_default()
+        .into_iter()
+        .map(|(s, e)| {
+            if s >= tour.total() {
+                json!([s, e, "interval-outside-tour"])
+            } else if accepts(s, BIG) {
+                json!([s, e, Value::Null])
+            } else if !accepts(s, -BIG) {
+                json!([s, e, "below-range"])
+            } else {
+                let (mut lo, mut hi) = (-BIG, BIG); // accepts(lo) && !accepts(hi)
+                while hi - lo > 1 {
+                    let mid = lo + (hi - lo) / 2;
+                    if accepts(s, mid) {
+                        lo = mid;
+                    } else {
+                        hi = mid;
+                    }
+                }
+                json!([s, e, lo])
+            }
+        })
+        .collect();
+    json!(out)
+}
+
+/// "recompute from the bare tours" for the `shared` stream: the pending lists are kept (Solution::from drops `ignored`, where
+/// the unused reload markers live, and a context without them counts as a PARTIAL solution whose resource consumption the
+/// feature refuses to estimate); every tour gets an empty cache and the stale flag, then accept_solution_state runs (every
+/// caching feature of this goal - transport, capacity with reload intervals, shared resource, tour order - recomputes a stale
+/// tour there).  goal.accept_route_state is NOT used on the way: with a CombinedFeatureState in the goal (the shared reload
+/// feature is one) its nested accept_route_state_with_states clears the route state a second time and so wipes what the
+/// features listed before it have just written (see notes/C05.md).
+fn rebuild_pending(ctx: &InsertionContext) -> InsertionContext {
+    let s = &ctx.solution;
+    let solution = SolutionContext {
+        required: s.required.clone(),
+        ignored: s.ignored.clone(),
+        unassigned: s.unassigned.clone(),
+        locked: s.locked.clone(),
+        routes: s.routes.iter().map(|rc| RouteContext::new_with_state(rc.route().deep_copy(), RouteState::default())).collect(),
+        registry: s.registry.deep_copy(),
+        state: SolutionState::default(),
+    };
+    let mut fresh = InsertionContext { problem: ctx.problem.clone(), solution, environment: ctx.environment.clone() };
+    fresh.restore();
+    fresh
 }
 
 fn vehicle_from(v: &Value, id: &str) -> Vehicle {
@@ -219,6 +350,19 @@ fn build(case: &Value) -> GenericResult<Built> {
         }
     }
 
+    // C05 stream `shared`: reload marker jobs (one single per reload, owned by a vehicle) and the shared-resource feature
+    let shared: Option<Feature> = if case["shared"].is_object() {
+        for r in case["shared"]["reloads"].as_array().unwrap() {
+            let mut dimens = Dimensions::default();
+            dimens.set_job_id(format!("j{}", i64_of(&r["id"])));
+            dimens.set_value::<ReloadOwnerKey, String>(format!("v{}", i64_of(&r["vehicle"])));
+            jobs.push(Job::Single(Arc::new(Single { places: r["places"].as_array().unwrap().iter().map(place_of).collect(), dimens })));
+        }
+        Some(shared_reload_feature(case, jobs.len())?)
+    } else {
+        None
+    };
+
     let feats = &case["features"];
     let on = |k: &str| feats[k].as_bool().unwrap_or(false);
     let seed = case["seed"].as_u64().unwrap_or(1);
@@ -255,7 +399,10 @@ fn build(case: &Value) -> GenericResult<Built> {
                 .build_minimize_cost()?,
         );
         names.push("cost");
-        features.push(CapacityFeatureBuilder::<SingleDimLoad>::new("capacity").set_violation_code(ViolationCode(2)).build()?);
+        match shared.as_ref() {
+            Some(f) => features.push(f.clone()),
+            None => features.push(CapacityFeatureBuilder::<SingleDimLoad>::new("capacity").set_violation_code(ViolationCode(2)).build()?),
+        }
         if on("compat") {
             features.push(create_compatibility_feature("compat", ViolationCode(13))?);
         }
@@ -319,7 +466,7 @@ fn build(case: &Value) -> GenericResult<Built> {
         transport: p0.transport.clone(),
         extras: p0.extras.clone(),
     });
-    Ok(Built { problem, env, quota, vidx, names })
+    Ok(Built { problem, env, quota, vidx, names, shared })
 }
 
 // ------------------------------------------------------------------ dumps
@@ -421,6 +568,9 @@ fn dump(b: &Built, ctx: &InsertionContext, with_fresh: bool) -> Value {
             if with_fresh {
                 r["route_level"] = json!(fresh_route_digest(ctx, rc));
             }
+            if b.shared.is_some() {
+                r["shared"] = shared_readout(b, s, rc);
+            }
             r
         })
         .collect();
@@ -434,13 +584,23 @@ fn dump(b: &Built, ctx: &InsertionContext, with_fresh: bool) -> Value {
         "sdig": s.state.verif_digest(),
         "fit": ctx.problem.goal.fitness(ctx).map(fit_out).collect::<Vec<_>>(),
     });
+    if b.shared.is_some() {
+        d["partial"] = json!(s.get_jobs_amount() != ctx.problem.jobs.size());
+    }
     if with_fresh {
-        let fresh = rebuild(ctx);
+        let fresh = if b.shared.is_some() { rebuild_pending(ctx) } else { rebuild(ctx) };
         let fr: Vec<Value> = fresh
             .solution
             .routes
             .iter()
-            .map(|rc| json!({"v": actor_idx(b, rc), "dig": rc.state().verif_digest(), "sched": sched_of(rc)}))
+            .map(|rc| {
+                let mut r = json!({"v": actor_idx(b, rc), "dig": rc.state().verif_digest(), "sched": sched_of(rc)});
+                if b.shared.is_some() {
+                    r["shared"] = shared_readout(b, &fresh.solution, rc);
+                    r["jobs"] = json!(rc.route().tour.all_activities().map(|a| a.retrieve_job().map(|j| job_num(&j)).unwrap_or(-1)).collect::<Vec<_>>());
+                }
+                r
+            })
             .collect();
         d["rebuilt"] = json!({
             "routes": fr,
@@ -482,6 +642,45 @@ fn cache_mismatches(b: &Built, ctx: &InsertionContext) -> Vec<Value> {
             }
         })
         .collect()
+}
+
+/// `shared` stream, after a single applied insertion: the tours (job id + resource demand of every activity), the cached
+/// reload intervals and the cached shared-resource availability of every tour (the plugin recomputes them from the tours),
+/// plus the live digest/schedule against the context rebuilt from the same tours (tours which the rebuild's own
+/// solution-level clean-up changed - a reload marker that became obsolete in the middle of a step - are left out).
+fn shared_observation(b: &Built, ctx: &InsertionContext) -> Value {
+    let s = &ctx.solution;
+    let fresh = rebuild_pending(ctx);
+    let by_actor: HashMap<i64, &RouteContext> = fresh.solution.routes.iter().map(|rc| (actor_idx(b, rc), rc)).collect();
+    let ids = |rc: &RouteContext| rc.route().tour.all_activities().map(|a| a.retrieve_job().map(|j| job_num(&j)).unwrap_or(-1)).collect::<Vec<_>>();
+    let routes: Vec<Value> = s
+        .routes
+        .iter()
+        .map(|rc| {
+            let acts: Vec<Value> = rc
+                .route()
+                .tour
+                .all_activities()
+                .map(|a| {
+                    let d = a.job.as_ref().and_then(|s| s.dimens.get_job_demand::<SingleDimLoad>()).map(|d: &Demand<SingleDimLoad>| d.delivery.0.value);
+                    json!([a.retrieve_job().map(|j| job_num(&j)).unwrap_or(-1), d])
+                })
+                .collect();
+            let v = actor_idx(b, rc);
+            let mut r = json!({"v": v, "acts": acts, "shared": shared_readout(b, s, rc)});
+            if let Some(f) = by_actor.get(&v).filter(|f| ids(f) == ids(rc)) {
+                let (live, fr) = ((rc.state().verif_digest(), sched_of(rc)), (f.state().verif_digest(), sched_of(f)));
+                if live != fr {
+                    r["dig"] = json!(live.0);
+                    r["sched"] = json!(live.1);
+                    r["fresh_dig"] = json!(fr.0);
+                    r["fresh_sched"] = json!(fr.1);
+                }
+            }
+            r
+        })
+        .collect();
+    json!({"partial": s.get_jobs_amount() != ctx.problem.jobs.size(), "routes": routes})
 }
 
 // ------------------------------------------------------------------ operators
@@ -618,13 +817,27 @@ fn run_case_inner(case: &Value) -> Value {
 
     // observer: cached vs recomputed after every single applied insertion
     let observed: Rc<RefCell<(usize, Vec<Value>)>> = Rc::new(RefCell::new((0, vec![])));
-    let bref: Rc<Built> = Rc::new(Built { problem: b.problem.clone(), env: b.env.clone(), quota: b.quota.clone(), vidx: b.vidx.clone(), names: b.names.clone() });
+    let bref: Rc<Built> = Rc::new(Built { problem: b.problem.clone(), env: b.env.clone(), quota: b.quota.clone(), vidx: b.vidx.clone(), names: b.names.clone(), shared: b.shared.clone() });
     let stage: Rc<RefCell<String>> = Rc::new(RefCell::new("init".to_string()));
+    let shared_obs: Rc<RefCell<Vec<Value>>> = Rc::new(RefCell::new(vec![]));
     if observe {
         let observed = observed.clone();
         let bref = bref.clone();
         let stage = stage.clone();
+        let shared_obs = shared_obs.clone();
         verif_hooks::set_insertion_observer(Some(Box::new(move |ctx: &InsertionContext| {
+            if bref.shared.is_some() {
+                let mut o = observed.borrow_mut();
+                o.0 += 1;
+                let mut so = shared_obs.borrow_mut();
+                if so.len() < 60 {
+                    let mut rec = shared_observation(&bref, ctx);
+                    rec["stage"] = json!(stage.borrow().clone());
+                    rec["n"] = json!(o.0);
+                    so.push(rec);
+                }
+                return;
+            }
             let mm = cache_mismatches(&bref, ctx);
             let mut o = observed.borrow_mut();
             o.0 += 1;
@@ -670,7 +883,11 @@ fn run_case_inner(case: &Value) -> Value {
         verif_hooks::set_insertion_observer(None);
     }
     let o = observed.borrow();
-    json!({"names": b.names, "init": init, "steps": steps, "observations": o.0, "observed_mismatches": o.1})
+    let mut res = json!({"names": b.names, "init": init, "steps": steps, "observations": o.0, "observed_mismatches": o.1});
+    if b.shared.is_some() {
+        res["shared_observations"] = json!(*shared_obs.borrow());
+    }
+    res
 }
 
 /// every case runs in a fresh thread inside a fresh single-threaded rayon pool: rosomaxa's repeatable RNG is a
